@@ -159,6 +159,16 @@ func Doubling(r *fw.Rand) string {
 			"func g(v) { v[0:0] = v; v }; a=[1,2]; i=0; while i < 60 { a = g(a); i = i + 1 }; 1",
 		})
 	}
+	if r.P(1, 8) {
+		// strings that grow through the result of a native function or method
+		return r.Pick([]string{
+			"x='abcdefgh'; i=0; while i < 60 { x = toStr([x, x]); i = i + 1 }; 1",
+			"x='abcdefgh'; i=0; while i < 60 { x = repr([x, x]); i = i + 1 }; 1",
+			"x='abcdefgh'; i=0; while i < 60 { x = toStr({'a': x, 'b': x}); i = i + 1 }; 1",
+			"x='abcdefgh'; i=0; while i < 60 { x = toStr(x) + toStr(x); i = i + 1 }; 1",
+			"x=['abcdefgh']; i=0; while i < 60 { x = [toStr(x), toStr(x)]; i = i + 1 }; 1",
+		})
+	}
 	switch r.Intn(12) {
 	case 0:
 		return "x='ab'; i=0; while i < 60 { x = x + x; i = i + 1 }; 1"
